@@ -83,3 +83,24 @@ package blockresults
 //@   assumed
 //@   modifies fieldsof(runningStats), fieldsof(sutils.CValueEnclosure)
 //@ end
+
+// C04 (an aggregate assembled from partial results equals the aggregate over
+// all events): when two partial timechart buckets are merged, the split-by
+// values both sides know are FOLDED, the values only the incoming side knows are
+// ADOPTED by reference.  Folding comes first: once a slice of the incoming side
+// sits in this bucket's map, a fold over that map would merge the slice into
+// itself (sums and counts double).  Ghost adoptedByRef: some incoming slice has
+// been adopted in this call.
+//@ ghostdecl adoptedByRef int
+//@ func (*RunningBucketResults).MergeRunningBuckets
+//@   props C04
+//@   assumecalleerequires
+//@   requires rr != nil
+//@   ghostinit ghost(0, "adoptedByRef") == 0
+//@   site mapupdate rr.groupedRunningStats[groupByColVal] #1:
+//@     assert [only-the-incoming-sides-own-slice-is-adopted-and-only-for-a-value-this-side-lacks] value == toJoinRunningStats && !haskey(rr.groupedRunningStats, key)
+//@     ghostset ghost(0, "adoptedByRef") = 1
+//@   site call rr.mergeRunningStats #1:
+//@     assert [no-fold-over-the-split-by-map-after-a-slice-was-adopted-into-it] ghost(0, "adoptedByRef") == 0
+//@     assert [the-fold-takes-the-incoming-sides-stats-of-the-same-split-by-value] arg2 == toJoin.groupedRunningStats[groupByColVal]
+//@ end
